@@ -382,8 +382,10 @@ Definition init_state (rl : rule) : res state :=
     if (freq rl =? WEEKLY) && truthy (bysetpos rl) then
       let back := (wd - wkst rl) mod 7 in
       let o := ord_of_ymd year month day in
-      if negb (back =? 0) && (1 <=? o - back) then
-        let '(y', m', d') := ymd_of_ord (o - back) in (y', m', d', wkst rl)
+      if negb (back =? 0) then
+        (* clamped at 0001-01-01 (fix 3426f68): date.fromordinal(max(o - back, 1)), weekday = first.weekday() *)
+        let o' := Z.max (o - back) 1 in
+        let '(y', m', d') := ymd_of_ord o' in (y', m', d', weekday_of_ord o')
       else (year, month, day, wd)
     else (year, month, day, wd) in
   do ii <- rebuild rl ii_init year month;
